@@ -427,3 +427,47 @@ def hostile_target_streams():
     for t in HOSTILE_TARGETS:
         for method in (b"GET", b"CONNECT", b"OPTIONS"):
             yield (method, t), method + b" " + t + b" HTTP/1.1\r\nHost: a\r\n\r\n" + NEXT
+
+
+def hostile_number_streams():
+    """Numeric fields at the edge of what the conversion functions accept (int() refuses > 4300 digits)."""
+    H = b"POST / HTTP/1.1\r\nHost: a\r\n"
+    ok = b"HTTP/1.1 200 OK\r\n"
+    for n in (4300, 4301, 8000):
+        yield f"cl-{n}-digits", H + b"Content-Length: " + b"1" * n + b"\r\n\r\n"
+        yield f"cl-{n}-zeros", H + b"Content-Length: " + b"0" * n + b"\r\n\r\n" + NEXT
+        yield f"chunksize-{n}-hex", H + b"Transfer-Encoding: chunked\r\n\r\n" + b"f" * n + b"\r\n"
+        yield f"chunksize-{n}-zeros", H + b"Transfer-Encoding: chunked\r\n\r\n" + b"0" * n + b"\r\n\r\n" + NEXT
+        yield f"resp-cl-{n}-digits", ok + b"Content-Length: " + b"1" * n + b"\r\n\r\n"
+        yield f"resp-chunksize-{n}-hex", ok + b"Transfer-Encoding: chunked\r\n\r\n" + b"f" * n + b"\r\n"
+    for bad in (b"\xff", b"5\xff", b"\xef\xbc\x95", b"5;\xff=\xfe", b"\xc2\xa0" + b"5"):
+        yield f"chunksize-nonascii-{bad.hex()}", H + b"Transfer-Encoding: chunked\r\n\r\n" + bad + b"\r\nhello\r\n0\r\n\r\n"
+    yield "trailer-nonascii", H + b"Transfer-Encoding: chunked\r\n\r\n1\r\nx\r\n0\r\nX-\xff: v\r\n\r\n"
+    yield "trailer-too-long", H + b"Transfer-Encoding: chunked\r\n\r\n1\r\nx\r\n0\r\nX-T: " + b"v" * 9000 + b"\r\n\r\n"
+    yield "chunkext-too-long", H + b"Transfer-Encoding: chunked\r\n\r\n1;" + b"e" * 9000 + b"\r\nx\r\n0\r\n\r\n"
+    yield "header-nonascii-name", b"GET / HTTP/1.1\r\nHost: a\r\nX-\xff\xfe: v\r\n\r\n"
+    yield "method-nonascii", b"G\xffT / HTTP/1.1\r\nHost: a\r\n\r\n"
+    yield "version-nonascii", b"GET / HTTP/1.\xff\r\nHost: a\r\n\r\n"
+
+
+def unterminated_streams(mls: int, mfs: int):
+    """A line that never ends, several times longer than its limit, in every syntactic position:
+    (label, stream, piece size).  Must be rejected while it grows, not buffered."""
+    H = b"POST / HTTP/1.1\r\nHost: a\r\n"
+    C = H + b"Transfer-Encoding: chunked\r\n\r\n"
+    ok = b"HTTP/1.1 200 OK\r\n"
+    big = 4 * max(mls, mfs)
+    step = max(3, min(mls, mfs) // 3)
+    yield "reqline", b"GET /" + b"a" * big, step
+    yield "fieldname", H + b"X" * big, step
+    yield "fieldvalue", H + b"X-A: " + b"v" * big, step
+    yield "chunksize", C + b"0" * big, step
+    yield "chunkext", C + b"5;" + b"e" * big, step
+    yield "chunkext-later", C + b"1\r\nx\r\n5;" + b"e" * big, step
+    yield "trailer-name", C + b"1\r\nx\r\n0\r\n" + b"T" * big, step
+    yield "trailer-value", C + b"1\r\nx\r\n0\r\nX-T: " + b"v" * big, step
+    yield "trailer-second", C + b"0\r\nA: b\r\nX-T: " + b"v" * big, step
+    yield "resp-reason", b"HTTP/1.1 200 " + b"r" * big, step
+    yield "resp-fieldvalue", ok + b"X-A: " + b"v" * big, step
+    yield "resp-chunkext", ok + b"Transfer-Encoding: chunked\r\n\r\n5;" + b"e" * big, step
+    yield "resp-trailer-value", ok + b"Transfer-Encoding: chunked\r\n\r\n0\r\nX-T: " + b"v" * big, step
